@@ -90,9 +90,10 @@ theorem Ctx.storage3_target (c : Ctx f t old rem U ads) (n : Nat) {j : Nat} {k :
       · exact hn.1 (c.sp.mem_rem.mpr (isRem_iff.mpr ⟨k', hf, hkt⟩))
 
 /-- storage before the DOM phases: exactly the settled items, at their new indices -/
-theorem Ctx.storage4_at (c : Ctx f t old rem U ads) (hU : U = (unpackMoves (diff f t)).1) (n : Nat)
+theorem Ctx.storage4_at (c : Ctx f t old rem U ads) (hU : U = (unpackMoves (diff f t)).1)
     {j : Nat} {k : Key} (hk : t[j]? = some k) :
-    itemAt (storage4 (old.map some) rem U n) j = if settled f t k then oldOf old k else none := by
+    itemAt (storage4 (old.map some) rem U ads.length) j = if settled f t k then oldOf old k else none := by
+  have hfrom := c.sp.from_nodup c.ht
   have hto := c.sp.to_nodup c.hf c.ht
   have hjt := (List.getElem?_eq_some_iff.mp hk).1
   unfold storage4
@@ -130,10 +131,501 @@ theorem Ctx.storage4_at (c : Ctx f t old rem U ads) (hU : U = (unpackMoves (diff
         exact hne (this.symm.trans hmt.symm ▸ rfl)
     · obtain ⟨m, hm, hmf, hmt⟩ := (c.sp.mem_pairs c.ht).mpr ⟨hij, k, hi, hk⟩
       subst hmf hmt
-      have hlen : m.to_ < (storage2 (old.map some) rem U ++ List.replicate n none).length := by
-        sorry
-      sorry
-  · sorry
+      have hlen : m.to_ < (storage2 (old.map some) rem U ++ List.replicate ads.length none).length := by
+        have := c.to_lt hm; have := c.length_le; have := c.old_length
+        simp [storage2]; omega
+      have hfj : f[m.to_]? ≠ some k := by
+        intro h
+        exact hij ((List.getElem?_inj hilt c.hf).mp (hi.trans h.symm))
+      by_cases hd : m.moveInDom = true
+      · have hsett : settled f t k = false := by
+          rw [Bool.eq_false_iff, Ne, c.settled_iff hU]
+          exact fun h => h.2.2 ⟨m, hm, hd, hi⟩
+        rw [hsett, itemAt_applyWrites_of_not_mem, c.storage3_target _ hk hfj]
+        · simp
+        · intro h
+          rw [c.ndWrites_eq, List.map_map, List.mem_map] at h
+          obtain ⟨m', hm', hmt'⟩ := h
+          obtain ⟨hmU', hd'⟩ := List.mem_filter.mp hm'
+          have := eq_of_mem_of_nodup_map hto hmU' hm hmt'
+          subst this
+          simp [hd] at hd'
+      · have hd' : m.moveInDom = false := by simpa using hd
+        have hsett : settled f t k = true := by
+          rw [c.settled_iff hU]
+          refine ⟨hkf, List.mem_of_getElem? hk, ?_⟩
+          rintro ⟨m', hm', hdm', hmk'⟩
+          have h1 := (List.getElem?_inj hilt c.hf).mp (hi.trans hmk'.symm)
+          have := eq_of_mem_of_nodup_map hfrom hm hm' h1
+          subst this
+          simp [hd'] at hdm'
+        rw [hsett, if_pos rfl, c.oldOf_of_key hi]
+        apply itemAt_applyWrites_of_mem (List.Nodup.sublist c.ndWrites_pos_sublist hto) _ hlen
+        rw [c.ndWrites_eq, List.mem_map]
+        exact ⟨m, List.mem_filter.mpr ⟨hm, by simp [hd']⟩, rfl⟩
+  · have hsett : settled f t k = false := by
+      rw [Bool.eq_false_iff, Ne, c.settled_iff hU]
+      exact fun h => hkf h.1
+    rw [hsett, itemAt_applyWrites_of_not_mem,
+      c.storage3_target _ hk (fun h => hkf (List.mem_of_getElem? h))]
+    · simp
+    · intro h
+      have := c.ndWrites_pos_sublist.subset h
+      obtain ⟨m, hm, hmt⟩ := List.mem_map.mp this
+      obtain ⟨_, k', hk1, hk2⟩ := (c.sp.mem_pairs c.ht).mp ⟨m, hm, rfl, rfl⟩
+      rw [hmt, hk] at hk2; simp only [Option.some.injEq] at hk2; subst hk2
+      exact hkf (List.mem_of_getElem? hk1)
+
+theorem Ctx.storage4_beyond (c : Ctx f t old rem U ads) (n : Nat) {j : Nat} (hj : t.length ≤ j) :
+    itemAt (storage4 (old.map some) rem U n) j = none := by
+  unfold storage4
+  rw [itemAt_applyWrites_of_not_mem, c.itemAt_storage3]
+  · split
+    · rfl
+    · rename_i hn
+      simp only [not_or] at hn
+      cases hf : f[j]? with
+      | none =>
+        have : old.length ≤ j := by
+          rw [c.old_length]
+          exact Nat.le_of_not_lt fun h => by simp [List.getElem?_eq_getElem h] at hf
+        exact List.getElem?_eq_none this
+      | some k =>
+        exfalso
+        by_cases hkt : k ∈ t
+        · obtain ⟨j', hj'⟩ := List.mem_iff_getElem?.mp hkt
+          have hlt := (List.getElem?_eq_some_iff.mp hj').1
+          obtain ⟨m, hm, hmf, _⟩ := (c.sp.mem_pairs c.ht).mpr ⟨(by omega : j ≠ j'), k, hf, hj'⟩
+          exact hn.2 (List.mem_map.mpr ⟨m, hm, hmf⟩)
+        · exact hn.1 (c.sp.mem_rem.mpr (isRem_iff.mpr ⟨k, hf, hkt⟩))
+  · intro h
+    have := c.ndWrites_pos_sublist.subset h
+    obtain ⟨m, hm, rfl⟩ := List.mem_map.mp this
+    have := c.to_lt hm; omega
+
+end
+
+/-! ### the stored items before the DOM phases, as a list -/
+
+theorem somes_eq_nil_of_all_none : ∀ (S : List (Option Item)), (∀ j, itemAt S j = none) → somes S = []
+  | [], _ => rfl
+  | none :: S, h => by
+    rw [somes_cons_none]
+    exact somes_eq_nil_of_all_none S (fun j => by simpa [itemAt] using h (j + 1))
+  | some a :: S, h => by simpa [itemAt] using h 0
+
+theorem somes_eq_filterMap (g : Key → Option Item) : ∀ (t : List Key) (S : List (Option Item)),
+    (∀ (j : Nat) (k : Key), t[j]? = some k → itemAt S j = g k) → (∀ j, t.length ≤ j → itemAt S j = none) →
+    somes S = t.filterMap g
+  | [], S, _, h2 => by
+    simpa using somes_eq_nil_of_all_none S (fun j => h2 j (by simp))
+  | k :: t, [], h1, _ => by
+    have h0 : g k = none := by simpa [itemAt] using (h1 0 k rfl).symm
+    have := somes_eq_filterMap g t [] (fun j k' hk' => by
+      have := h1 (j + 1) k' (by simpa using hk')
+      simpa [itemAt] using this) (fun j _ => by simp [itemAt])
+    simp [h0, ← this, somes]
+  | k :: t, o :: S, h1, h2 => by
+    have h0 : o = g k := by simpa [itemAt] using h1 0 k rfl
+    have ih := somes_eq_filterMap g t S (fun j k' hk' => by
+      have := h1 (j + 1) k' (by simpa using hk')
+      simpa [itemAt] using this) (fun j hj => by
+      have := h2 (j + 1) (by simp; omega)
+      simpa [itemAt] using this)
+    rw [List.filterMap_cons, ← h0, ← ih]
+    cases o <;> rfl
+
+theorem filterMap_ite (p : Key → Bool) (g : Key → Option Item) : ∀ (l : List Key),
+    l.filterMap (fun k => if p k then g k else none) = (l.filter p).filterMap g
+  | [] => rfl
+  | a :: l => by
+    by_cases h : p a = true
+    · simp [List.filterMap_cons, h, filterMap_ite p g l]
+    · simp [h, filterMap_ite p g l]
+
+section
+variable {f t : List Key} {old : List Item} {rem : List Nat} {U : List DiffOpMove} {ads : List DiffOpAdd}
+
+theorem Ctx.filter_keys_filterMap_oldOf (c : Ctx f t old rem U ads) (p : Key → Bool) :
+    (f.filter p).filterMap (oldOf old) = old.filter fun it => p it.key := by
+  rw [← c.hold, List.filter_map, List.filterMap_map]
+  have : ∀ it ∈ old.filter (p ∘ fun x => x.key), (oldOf old ∘ fun x => x.key) it = some it := by
+    intro it hit
+    obtain ⟨i, hi⟩ := List.mem_iff_getElem?.mp (List.mem_filter.mp hit).1
+    exact c.oldOf_eq hi
+  rw [filterMap_congr' this]
+  simp [Function.comp_def]
+
+/-- under `settledMonotone`, the items stored before the DOM phases are the settled old items, in the
+OLD order -/
+theorem Ctx.somes_storage4 (c : Ctx f t old rem U ads) (hU : U = (unpackMoves (diff f t)).1)
+    (hsm : settledMonotone f t = true) :
+    somes (storage4 (old.map some) rem U ads.length) = old.filter fun it => settled f t it.key := by
+  rw [somes_eq_filterMap (fun k => if settled f t k then oldOf old k else none) t _
+    (fun j k hk => c.storage4_at hU hk) (fun j hj => c.storage4_beyond _ hj)]
+  rw [filterMap_ite]
+  have : t.filter (settled f t) = f.filter (settled f t) := by
+    unfold settledMonotone at hsm
+    exact (by simpa using hsm : f.filter (settled f t) = t.filter (settled f t)).symm
+  rw [this, c.filter_keys_filterMap_oldOf]
+
+end
+
+/-! ### the removal phase on the region -/
+
+theorem nodup_unmountItem {kids : List NodeId} (it : Item) (h : kids.Nodup) : (unmountItem kids it).Nodup := by
+  rw [unmountItem_eq_filter it h]
+  exact List.Nodup.sublist List.filter_sublist h
+
+theorem mem_unmountItem {kids : List NodeId} {it : Item} (h : kids.Nodup) {n : NodeId} :
+    n ∈ unmountItem kids it ↔ n ∈ kids ∧ n ∉ it.nodes := by
+  rw [unmountItem_eq_filter it h, List.mem_filter]
+  simp
+
+theorem unmount_fold_region (pre post : List NodeId) (marker : NodeId) : ∀ (R seq : List Item),
+    (pre ++ blocks seq ++ marker :: post).Nodup → (∀ z ∈ seq, z.nodes ≠ []) → R.Nodup →
+    (∀ x ∈ R, x ∈ seq) →
+    R.foldl unmountItem (pre ++ blocks seq ++ marker :: post)
+      = pre ++ blocks (seq.filter fun z => !R.contains z) ++ marker :: post
+  | [], seq, _, _, _, _ => by
+    have : seq.filter (fun z => !([] : List Item).contains z) = seq := List.filter_eq_self.mpr (by simp)
+    rw [this]; rfl
+  | x :: R, seq, hnd, hne, hR, hsub => by
+    have h1 := List.nodup_append.mp hnd
+    have h2 := List.nodup_append.mp h1.1
+    have hseq := nodup_of_blocks_nodup h2.2.1 hne
+    simp only [List.nodup_cons] at hR
+    rw [List.foldl_cons, unmountItem_eq_filter x hnd,
+      region_filter pre post marker seq x hnd hne (Or.inl (hsub x (by simp)))]
+    have hnd' : (pre ++ blocks (seq.erase x) ++ marker :: post).Nodup := by
+      rw [← region_filter pre post marker seq x hnd hne (Or.inl (hsub x (by simp)))]
+      exact List.Nodup.sublist List.filter_sublist hnd
+    rw [unmount_fold_region pre post marker R (seq.erase x) hnd'
+      (fun z hz => hne z (List.mem_of_mem_erase hz)) hR.2
+      (fun x' hx' => (List.Nodup.mem_erase_iff hseq).mpr
+        ⟨by rintro rfl; exact hR.1 hx', hsub x' (by simp [hx'])⟩)]
+    congr 2
+    rw [List.Nodup.erase_eq_filter hseq, List.filter_filter]
+    congr 1
+    apply List.filter_congr
+    intro z _
+    by_cases hz : z = x <;> simp [hz, Bool.and_comm]
+
+theorem unmount_fold_nodup : ∀ (R : List Item) {kids : List NodeId}, kids.Nodup →
+    (R.foldl unmountItem kids).Nodup ∧ ∀ n ∈ R.foldl unmountItem kids, n ∈ kids
+  | [], _, h => ⟨h, fun _ hn => hn⟩
+  | x :: R, kids, h => by
+    obtain ⟨h1, h2⟩ := unmount_fold_nodup R (nodup_unmountItem x h)
+    exact ⟨h1, fun n hn => ((mem_unmountItem h).mp (h2 n hn)).1⟩
+
+theorem somes_filter_isSome (S : List (Option Item)) : somes (S.filter Option.isSome) = somes S := by
+  induction S with
+  | nil => rfl
+  | cons o S ih => cases o <;> simp [somes] at ih ⊢ <;> exact ih
+
+theorem getElem?_of_itemAt_none {S : List (Option Item)} {p : Nat} (hp : p < S.length) (h : itemAt S p = none) :
+    S[p]? = some none := by
+  unfold itemAt at h
+  rw [List.getElem?_eq_getElem hp] at h ⊢
+  cases hv : S[p] with
+  | none => rfl
+  | some a => simp [hv] at h
+
+theorem addPlacements_nodes {bs : Nat} {to : List Key} : ∀ {as : List DiffOpAdd} {next : Nat} {p : Nat} {it : Item},
+    (p, it) ∈ addPlacements bs to next as →
+    (∀ n ∈ it.nodes, next ≤ n ∧ n < next + bs * as.length) ∧ it.nodes.Nodup ∧ (0 < bs → it.nodes ≠ [])
+  | [], _, _, _, h => by simp [addPlacements] at h
+  | a :: as, next, p, it, h => by
+    simp only [addPlacements, List.mem_cons, Prod.mk.injEq] at h
+    rcases h with ⟨rfl, rfl⟩ | h
+    · refine ⟨?_, List.nodup_range' .., ?_⟩
+      · intro n hn
+        simp only [List.mem_range'_1] at hn
+        simp only [List.length_cons, Nat.mul_add, Nat.mul_one]
+        generalize bs * as.length = e
+        exact ⟨hn.1, Nat.lt_of_lt_of_le hn.2 (by omega)⟩
+      · intro hbs hnil
+        simp only at hnil
+        have := congrArg List.length hnil
+        simp at this
+        omega
+    · obtain ⟨h1, h2, h3⟩ := addPlacements_nodes h
+      refine ⟨?_, h2, h3⟩
+      intro n hn
+      have := h1 n hn
+      simp only [List.length_cons, Nat.mul_add, Nat.mul_one]
+      generalize bs * as.length = e at this ⊢
+      exact ⟨Nat.le_trans (by omega) this.1, Nat.lt_of_lt_of_le this.2 (by omega)⟩
+
+theorem addPlacements_pairwise_disjoint (bs : Nat) (to : List Key) : ∀ (as : List DiffOpAdd) (next : Nat),
+    ((addPlacements bs to next as).map (·.2)).Pairwise fun a b => ∀ n ∈ a.nodes, n ∉ b.nodes
+  | [], _ => by simp [addPlacements]
+  | a :: as, next => by
+    simp only [addPlacements, List.map_cons, List.pairwise_cons]
+    refine ⟨?_, addPlacements_pairwise_disjoint bs to as (next + bs)⟩
+    intro b hb n hn hn'
+    obtain ⟨q, hq, rfl⟩ := List.mem_map.mp hb
+    have := (addPlacements_nodes (p := q.1) (it := q.2) hq).1 n hn'
+    simp only [List.mem_range'_1] at hn
+    omega
+
+theorem nodup_of_pairwise_disjoint {l : List Item} (h : l.Pairwise fun a b => ∀ n ∈ a.nodes, n ∉ b.nodes)
+    (hne : ∀ x ∈ l, x.nodes ≠ []) : l.Nodup := by
+  refine List.Pairwise.imp_of_mem ?_ h
+  intro a b ha _ hab heq
+  subst heq
+  obtain ⟨n, hn⟩ := List.exists_mem_of_ne_nil _ (hne a ha)
+  exact hab n hn hn
+
+section
+variable {f t : List Key} {old : List Item} {rem : List Nat} {U : List DiffOpMove} {ads : List DiffOpAdd}
+
+/-- the positions written by the DOM phases are pairwise different -/
+theorem Ctx.placements_pos_nodup (c : Ctx f t old rem U ads) (bs next : Nat) :
+    ((dPlacements (movedWith (old.map some) rem U) ++ addPlacements bs t next ads).map (·.1)).Nodup := by
+  have hto := c.sp.to_nodup c.hf c.ht
+  rw [List.map_append, List.nodup_append]
+  refine ⟨List.Nodup.sublist c.dPlacements_pos_sublist hto, ?_, ?_⟩
+  · rw [addPlacements_map_fst]; exact c.sp.ads_nodup
+  · intro a ha b hb hab
+    subst hab
+    obtain ⟨m', hm', rfl⟩ := List.mem_map.mp (c.dPlacements_pos_sublist.subset ha)
+    rw [addPlacements_map_fst] at hb
+    obtain ⟨k, hk, hkf⟩ := isAdd_iff.mp (c.sp.mem_ads.mp hb)
+    obtain ⟨_, k', hk1, hk2⟩ := (c.sp.mem_pairs c.ht).mp ⟨m', hm', rfl, rfl⟩
+    rw [hk] at hk2
+    simp only [Option.some.injEq] at hk2
+    subst hk2
+    exact hkf (List.mem_of_getElem? hk1)
+
+/-- the removed items -/
+theorem Ctx.mem_removed (c : Ctx f t old rem U ads) {x : Item} :
+    x ∈ rem.filterMap (itemAt (old.map some)) ↔ x ∈ old ∧ x.key ∉ t := by
+  rw [List.mem_filterMap]
+  constructor
+  · rintro ⟨a, ha, hx⟩
+    rw [itemAt_map_some] at hx
+    obtain ⟨k, hk, hkt⟩ := isRem_iff.mp (c.sp.mem_rem.mp ha)
+    have := c.old_key a
+    rw [hx, hk] at this
+    simp only [Option.map_some, Option.some.injEq] at this
+    exact ⟨List.mem_of_getElem? hx, this ▸ hkt⟩
+  · rintro ⟨hx, hkt⟩
+    obtain ⟨i, hi⟩ := List.mem_iff_getElem?.mp hx
+    have hk : f[i]? = some x.key := by rw [← c.old_key, hi]; rfl
+    exact ⟨i, c.sp.mem_rem.mpr (isRem_iff.mpr ⟨x.key, hk, hkt⟩), by rw [itemAt_map_some, hi]⟩
+
+theorem Ctx.removed_nodup (c : Ctx f t old rem U ads) (hold : old.Nodup) :
+    (rem.filterMap (itemAt (old.map some))).Nodup := by
+  refine List.Pairwise.filterMap _ ?_ c.sp.rem_nodup
+  intro a a' hne b hb b' hb' heq
+  subst heq
+  rw [itemAt_map_some] at hb hb'
+  have hlt := (List.getElem?_eq_some_iff.mp hb).1
+  exact hne ((List.getElem?_inj hlt hold).mp (hb.trans hb'.symm))
+
+theorem Ctx.dPlacements_items (c : Ctx f t old rem U ads) :
+    (dPlacements (movedWith (old.map some) rem U)).map (·.2)
+      = (U.filter fun m => m.moveInDom).filterMap fun m => old[m.from_]? := by
+  rw [c.movedWith_eq, dPlacements, List.filter_map, List.filterMap_map, List.map_filterMap]
+  apply filterMap_congr'
+  intro m _
+  simp only [Function.comp]
+  cases old[m.from_]? <;> rfl
+
+/-- the blocks of the items to be placed are pairwise disjoint -/
+theorem Ctx.placements_disjoint (c : Ctx f t old rem U ads) (bs next : Nat) (hbo : (blocks old).Nodup)
+    (hold : old.Nodup) (hlt : ∀ x ∈ old, ∀ n ∈ x.nodes, n < next) :
+    ((dPlacements (movedWith (old.map some) rem U) ++ addPlacements bs t next ads).map (·.2)).Pairwise
+      fun a b => ∀ n ∈ a.nodes, n ∉ b.nodes := by
+  rw [List.map_append, List.pairwise_append]
+  refine ⟨?_, addPlacements_pairwise_disjoint bs t ads next, ?_⟩
+  · rw [c.dPlacements_items]
+    have hfrom : ((U.filter fun m => m.moveInDom).map (·.from_)).Nodup :=
+      List.Nodup.sublist (List.Sublist.map _ List.filter_sublist) (c.sp.from_nodup c.ht)
+    rw [List.Nodup, List.pairwise_map] at hfrom
+    refine List.Pairwise.filterMap _ ?_ hfrom
+    intro m m' hne b hb b' hb'
+    have hbb : b ≠ b' := by
+      rintro rfl
+      exact hne ((List.getElem?_inj (List.getElem?_eq_some_iff.mp hb).1 hold).mp (hb.trans hb'.symm))
+    exact disjoint_of_mem hbo (List.mem_of_getElem? hb) (List.mem_of_getElem? hb') hbb
+  · intro a ha b hb n hna hnb
+    rw [c.dPlacements_items, List.mem_filterMap] at ha
+    obtain ⟨m, _, hm⟩ := ha
+    obtain ⟨q, hq, rfl⟩ := List.mem_map.mp hb
+    have h1 := hlt a (List.mem_of_getElem? hm) n hna
+    have h2 := ((addPlacements_nodes (p := q.1) (it := q.2) hq).1 n hnb).1
+    exact absurd h1 (Nat.not_lt.mpr h2)
+
+/-- **DOM order after the pipeline, under `settledMonotone`** -/
+theorem Ctx.dom_order (c : Ctx f t old rem U ads) (hn : ∀ a ∈ ads, a.mode = .normal)
+    (hU : U = (unpackMoves (diff f t)).1) (hsm : settledMonotone f t = true)
+    (bs : Nat) (marker : NodeId) (w : World) (pre post : List NodeId)
+    (hw : w.storage = old.map some) (hk : w.kids = pre ++ blocks old ++ marker :: post)
+    (hnd : w.kids.Nodup) (hne : ∀ z ∈ old, z.nodes ≠ []) (hfr : ∀ n ∈ w.kids, n < w.next) (hbs : 0 < bs) :
+    (pipeline bs marker t rem U ads ads.length w).kids
+      = pre ++ blocksOf (pipeline bs marker t rem U ads ads.length w).storage ++ marker :: post ∧
+    (pipeline bs marker t rem U ads ads.length w).kids.Nodup := by
+  have hkn : (pre ++ blocks old ++ marker :: post).Nodup := hk ▸ hnd
+  have hbo : (blocks old).Nodup := (List.nodup_append.mp (List.nodup_append.mp hkn).1).2.1
+  have hold : old.Nodup := nodup_of_blocks_nodup hbo hne
+  have hfrom := c.sp.from_nodup c.ht
+  have hto := c.sp.to_nodup c.hf c.ht
+  -- nodes of old items are children of the parent, hence below the id counter
+  have hold_lt : ∀ x ∈ old, ∀ n ∈ x.nodes, n < w.next := by
+    intro x hx n hnx
+    apply hfr
+    rw [hk]
+    simp only [List.mem_append]
+    exact Or.inl (Or.inr (mem_blocks.mpr ⟨x, hx, hnx⟩))
+  rw [c.pipeline_closed hn bs marker w hw]
+  simp only [blocksOf_eq, somes_filter_isSome]
+  have hst7 : storage7 old rem U ads bs t w.next
+      = (placeAll marker (placements bs t w rem U ads) (kids1 w rem, storage4 w.storage rem U ads.length)).2 := by
+    rw [placeAll_storage, storage7, placements, hw]
+  rw [hst7]
+  -- the sequence after the removals
+  have hkids1 : kids1 w rem = pre ++ blocks (old.filter fun z => t.contains z.key) ++ marker :: post := by
+    rw [kids1, hw, hk, unmount_fold_region pre post marker _ old hkn hne (c.removed_nodup hold)
+      (fun x hx => (c.mem_removed.mp hx).1)]
+    congr 2
+    congr 1
+    apply List.filter_congr
+    intro z hz
+    have := c.mem_removed (x := z)
+    by_cases hzt : z.key ∈ t
+    · simp [hzt, this, hz]
+    · simp [hzt, this, hz]
+  have hkids1_nodup : (kids1 w rem).Nodup := (unmount_fold_nodup _ hnd).1
+  have hkids1_sub : ∀ n ∈ kids1 w rem, n ∈ w.kids := (unmount_fold_nodup _ hnd).2
+  have hsomes4 := c.somes_storage4 hU hsm
+  rw [hw]
+  -- members of the placement list
+  have hmemP : ∀ q ∈ placements bs t w rem U ads,
+      (∃ m ∈ U, m.moveInDom = true ∧ m.to_ = q.1 ∧ old[m.from_]? = some q.2) ∨
+      q ∈ addPlacements bs t w.next ads := by
+    intro q hq
+    rw [placements, hw, List.mem_append] at hq
+    rcases hq with hq | hq
+    · exact Or.inl (c.mem_dPlacements.mp hq)
+    · exact Or.inr hq
+  -- a DOM-moved item is an old item whose key is in `t` and is not settled
+  have hdom : ∀ (m : DiffOpMove) (x : Item), m ∈ U → m.moveInDom = true → old[m.from_]? = some x →
+      x ∈ old ∧ x.key ∈ t ∧ settled f t x.key = false ∧ t[m.to_]? = some x.key := by
+    intro m x hm hd hx
+    obtain ⟨_, k, hk1, hk2⟩ := (c.sp.mem_pairs c.ht).mp ⟨m, hm, rfl, rfl⟩
+    have hkx : k = x.key := by
+      have := c.old_key m.from_
+      rw [hx, hk1] at this
+      simpa using this.symm
+    subst hkx
+    refine ⟨List.mem_of_getElem? hx, List.mem_of_getElem? hk2, ?_, hk2⟩
+    rw [Bool.eq_false_iff, Ne, c.settled_iff hU]
+    exact fun h => h.2.2 ⟨m, hm, hd, hk1⟩
+  have hnew : ∀ q ∈ addPlacements bs t w.next ads,
+      (∀ n ∈ q.2.nodes, w.next ≤ n) ∧ q.2.nodes.Nodup ∧ q.2.nodes ≠ [] ∧ q.2 ∉ old ∧
+      ∃ k, t[q.1]? = some k ∧ k ∉ f := by
+    intro q hq
+    obtain ⟨h1, h2, h3⟩ := addPlacements_nodes (p := q.1) (it := q.2) hq
+    refine ⟨fun n hn' => (h1 n hn').1, h2, h3 hbs, ?_, ?_⟩
+    · intro ho
+      obtain ⟨n, hn'⟩ := List.exists_mem_of_ne_nil _ (h3 hbs)
+      exact absurd (hold_lt q.2 ho n hn') (Nat.not_lt.mpr (h1 n hn').1)
+    · have := (mem_addPlacements hq).2
+      exact isAdd_iff.mp (c.sp.mem_ads.mp this)
+  have hlen4 : (storage4 (old.map some) rem U ads.length).length = f.length + ads.length := by
+    simp [storage4, storage2, c.old_length]
+  refine place_all pre post marker (placements bs t w rem U ads) (old.filter fun z => t.contains z.key)
+    (kids1 w rem, storage4 (old.map some) rem U ads.length) ⟨hkids1, hkids1_nodup, ?_, ?_, ?_⟩
+    ⟨?_, ?_, ?_, ?_, ?_, ?_, ?_⟩
+  · intro z hz; exact hne z (List.mem_filter.mp hz).1
+  · -- order: the settled items stand in the old order
+    simp only [hsomes4]
+    rw [List.filter_filter]
+    apply List.filter_congr
+    intro z hz
+    have : settled f t z.key = true → t.contains z.key = true := by
+      intro h
+      simpa using ((c.settled_iff hU).mp h).2.1
+    by_cases hs : settled f t z.key = true
+    · have := this hs
+      simp only [List.contains_iff_mem] at this
+      simp [List.mem_filter, hz, hs, this]
+    · simp [List.mem_filter, hz, hs]
+  · -- cover: an unsettled retained item is DOM-moved
+    intro z hz
+    obtain ⟨hzo, hzt⟩ := List.mem_filter.mp hz
+    simp only [hsomes4, List.mem_filter]
+    by_cases hs : settled f t z.key = true
+    · exact Or.inl ⟨hzo, hs⟩
+    · right
+      obtain ⟨i, hi⟩ := List.mem_iff_getElem?.mp hzo
+      have hfi : f[i]? = some z.key := by rw [← c.old_key, hi]; rfl
+      have : ∃ m ∈ U, m.moveInDom = true ∧ f[m.from_]? = some z.key :=
+        Classical.byContradiction fun hcon =>
+          hs ((c.settled_iff hU).mpr ⟨List.mem_of_getElem? hfi, by simpa using hzt, hcon⟩)
+      obtain ⟨m, hm, hd, hmk⟩ := this
+      have hmi : m.from_ = i :=
+        (List.getElem?_inj (List.getElem?_eq_some_iff.mp hmk).1 c.hf).mp (hmk.trans hfi.symm)
+      rw [List.mem_map]
+      refine ⟨(m.to_, z), ?_, rfl⟩
+      rw [placements, hw]
+      exact List.mem_append_left _ (c.mem_dPlacements.mpr ⟨m, hm, hd, rfl, by rw [hmi]; exact hi⟩)
+  · rw [placements, hw]; exact c.placements_pos_nodup bs w.next
+  · -- items pairwise different: their blocks are non-empty and pairwise disjoint
+    rw [placements, hw]
+    apply nodup_of_pairwise_disjoint (c.placements_disjoint bs w.next hbo hold hold_lt)
+    intro x hx
+    obtain ⟨q, hq, rfl⟩ := List.mem_map.mp hx
+    have hq' : q ∈ placements bs t w rem U ads := by rw [placements, hw]; exact hq
+    rcases hmemP q hq' with ⟨m, hm, hd, _, hx'⟩ | hq''
+    · exact hne _ (hdom m q.2 hm hd hx').1
+    · exact (hnew q hq'').2.2.1
+  · -- the slots are empty
+    intro q hq
+    have hq1 : ∃ k, t[q.1]? = some k ∧ settled f t k = false := by
+      rcases hmemP q hq with ⟨m, hm, hd, hto', hx⟩ | hq'
+      · obtain ⟨_, _, h3, h4⟩ := hdom m q.2 hm hd hx
+        exact ⟨_, hto' ▸ h4, h3⟩
+      · obtain ⟨_, _, _, _, k, hk, hkf⟩ := hnew q hq'
+        refine ⟨k, hk, ?_⟩
+        rw [Bool.eq_false_iff, Ne, c.settled_iff hU]
+        exact fun h => hkf h.1
+    obtain ⟨k, hk, hs⟩ := hq1
+    apply getElem?_of_itemAt_none
+    · have := (List.getElem?_eq_some_iff.mp hk).1
+      have := c.length_le
+      simp only at hlen4 ⊢
+      omega
+    · have := c.storage4_at hU hk
+      simp only [hs] at this
+      simpa using this
+  · -- not stored yet
+    intro q hq hst
+    simp only [hsomes4, List.mem_filter] at hst
+    rcases hmemP q hq with ⟨m, hm, hd, _, hx⟩ | hq'
+    · have := (hdom m q.2 hm hd hx).2.2.1
+      simp [this] at hst
+    · exact (hnew q hq').2.2.2.1 hst.1
+  · intro q hq
+    rcases hmemP q hq with ⟨m, hm, hd, _, hx⟩ | hq'
+    · exact hne _ (hdom m q.2 hm hd hx).1
+    · exact (hnew q hq').2.2.1
+  · -- in the sequence already, or made of fresh nodes
+    intro q hq
+    rcases hmemP q hq with ⟨m, hm, hd, _, hx⟩ | hq'
+    · left
+      obtain ⟨h1, h2, _⟩ := hdom m q.2 hm hd hx
+      exact List.mem_filter.mpr ⟨h1, by simpa using h2⟩
+    · right
+      obtain ⟨h1, h2, _⟩ := hnew q hq'
+      refine ⟨h2, ?_⟩
+      intro n hn' hk1
+      exact absurd (hfr n (hkids1_sub n hk1)) (Nat.not_lt.mpr (h1 n hn'))
+  · -- blocks pairwise disjoint
+    rw [placements, hw]
+    exact c.placements_disjoint bs w.next hbo hold hold_lt
 
 end
 
